@@ -67,7 +67,8 @@ Step(rec) ==
          /\ st' = IF rec.res # "ok" THEN st
                   ELSE IF rec.act = "Renew" THEN [st EXCEPT ![rec.id].started = rec.now, ![rec.id].dur = rec.granted]
                   ELSE IF rec.act = "Unsubscribe" THEN [st EXCEPT ![rec.id].unsub = TRUE,
-                                                                  ![rec.id].unsubAt = IF st[rec.id].unsub THEN @ ELSE rec.now]
+                                                                  \* (every accepted Unsubscribe restarts the grace period, as in Subscription.tla)
+                                                                  ![rec.id].unsubAt = rec.now]
                   ELSE st
     [] rec.act = "Report" ->
          LET expect == {i \in Ids : Alive(st[i], rec.now) /\ rec.a \in st[i].filter}
@@ -85,7 +86,7 @@ Step(rec) ==
     [] rec.act = "ReportDuring" ->
          \* rec.sent is in wire order; the event (Unsubscribe of rec.j / Tick) happened while the first notification was
          \* on its way: the first one was live before, every later one is live after the event, at its own send time
-         LET st1 == IF rec.ev = "Unsubscribe" /\ st[rec.j].issued /\ rec.evres = "ok" THEN [st EXCEPT ![rec.j].unsub = TRUE, ![rec.j].unsubAt = IF st[rec.j].unsub THEN @ ELSE rec.now]
+         LET st1 == IF rec.ev = "Unsubscribe" /\ st[rec.j].issued /\ rec.evres = "ok" THEN [st EXCEPT ![rec.j].unsub = TRUE, ![rec.j].unsubAt = rec.now]
                     \* a Subscribe served right after the subscribers were selected: a subscription from now on
                     ELSE IF rec.ev = "Subscribe" /\ rec.evres = "ok"
                       THEN [st EXCEPT ![rec.j] = [issued |-> TRUE, owner |-> rec.c, filter |-> Rng(rec.f), started |-> rec.now,
